@@ -3,8 +3,8 @@ full-width left floats, `clear`), run through the real layout and canonicalised 
 
 Document = dict(pageH, ltr, root); box = dict(kind='para'|'block', id, st, n, lineH, kids, pos, clear)
 with pos in 'static' | 'abs' | 'float' and clear a bool (`clear:left`).  Out-of-flow boxes may hold out-of-flow
-boxes (round 3), except an absolutely positioned box inside an absolutely positioned box (grammar restriction of
-stage 2a: its placeholder belongs to that box's own `absolute_boxes` list).
+boxes, at any depth (round 3: floats in floats / in absolutely positioned boxes; round 4: absolutely positioned
+boxes in floats and in absolutely positioned boxes).
 """
 from fractions import Fraction
 
@@ -184,6 +184,8 @@ def gen_doc(rng, size=None, mode='mixed', nest=True):
         return nest_oof(gen_doc(rng, size, rng.choice(['mixed', 'mixed', 'float', 'scenario']), nest=False), rng)
     if mode == 'keep' or (mode == 'mixed' and rng.random() < 0.12):
         return gen_keep_together(rng)
+    if mode == 'spacer' or (mode == 'mixed' and rng.random() < 0.1):
+        return gen_spacer_tail(rng)
     if mode == 'scenario' or (mode == 'mixed' and rng.random() < 0.4):
         return gen_scenario(rng)
     doc = pm.gen_doc(rng, size)
@@ -247,18 +249,17 @@ def gen_doc(rng, size=None, mode='mixed', nest=True):
 
 
 def nest_oof(doc, rng):
-    """Float boxes *inside* out-of-flow boxes too (floats in floats, floats in absolutely positioned boxes).
-    Not generated: an absolutely positioned box inside an absolutely positioned box (its placeholder would belong to
-    that box's own `absolute_boxes` list: outside the model, the driver answers bad-op), and an absolutely positioned
-    box inside a float (the model covers it - 300 documents agree - except where the finding
-    nested-out-of-flow-in-postponed-float lays the same source box out twice on one page: the two
-    AbsolutePlaceholders then share the source box's position, an aliasing the model does not have)."""
+    """Take boxes *inside* out-of-flow boxes out of the flow too: floats in floats, floats in absolutely positioned
+    boxes, absolutely positioned boxes in floats (round 4: generated since repair 0d665d0 - before it the finding
+    nested-out-of-flow-in-postponed-float could lay the same source box out twice on one page, and the two
+    AbsolutePlaceholders then shared the source box's position, an aliasing the model does not have).
+    Round 4: also an absolutely positioned box inside an absolutely positioned box (Model `layoutAbs`)."""
     p_nest = rng.choice([0.25, 0.5, 0.8])
 
     def walk(box, inside, in_abs):
         for kid in box['kids']:
             if inside and kid['pos'] == 'static' and rng.random() < p_nest:
-                kid['pos'] = 'float'
+                kid['pos'] = rng.choice(['float', 'float', 'abs'])
                 if kid['pos'] == 'float' and rng.random() < 0.25:
                     kid['clear'] = True
                 if rng.random() < 0.2:
@@ -449,6 +450,19 @@ def gen_scenario(rng):
             body_kids.append(unstatic(oof_box(rng.choice(kinds))))
     if rng.random() < 0.5:
         body_kids.insert(0, para(n=rng.choice([page_lines - 2, page_lines - 1, page_lines, page_lines + 1]) or 1))
+    if rng.random() < 0.3:
+        # trailing spacers: empty boxes (or boxes holding only out-of-flow children) that are collapsed through,
+        # `height: 0` or auto, with margins larger than what is left of the page - they must not make a page
+        tail = body_kids
+        if rng.random() < 0.3 and body_kids and body_kids[-1]['kind'] == 'block' and body_kids[-1]['pos'] == 'static':
+            tail = body_kids[-1]['kids']
+        for _ in range(rng.choice([1, 1, 2])):
+            kids = [unstatic(oof_box('abs'))] if rng.random() < 0.15 else []
+            spacer = dict(kind='block', id=nid(), st=pm.default_style(), kids=kids, pos='static', clear=False)
+            spacer['st']['height'] = rng.choice([Fraction(0), Fraction(0), 'auto'])
+            spacer['st']['mt'] = Fraction(rng.choice([0, 8, 16, 20, 40]))
+            spacer['st']['mb'] = Fraction(rng.choice([0, 0, 8, 16, 40]))
+            tail.append(spacer)
     body_st = pm.default_style()
     root_st = pm.default_style(isRoot=True)
     if rng.random() < 0.3:
@@ -558,3 +572,46 @@ def gen_keep_together(rng):
     body = dict(kind='block', id=nid(), st=pm.default_style(), kids=kids, pos='static', clear=False)
     root = dict(kind='block', id=nid(), st=pm.default_style(isRoot=True), kids=[body], pos='static', clear=False)
     return dict(pageH=Fraction(page_h), ltr=rng.random() < 0.85, root=root)
+
+
+def gen_spacer_tail(rng):
+    """A page that is (nearly) full, then - last in the document or in a block - boxes that take no room: empty
+    blocks with `height: 0` / auto and margins larger than what is left of the page, blocks holding only out-of-flow
+    boxes. They are collapsed through and must not open a page of their own."""
+    counter = [0]
+
+    def nid():
+        counter[0] += 1
+        return counter[0]
+
+    line_h = Fraction(rng.choice([10, 10, 12, 20]))
+    page_lines = rng.choice([3, 4, 5, 8])
+    page_h = page_lines * line_h + rng.choice([0, 0, 3, line_h / 2])
+
+    def para(n, pos='static'):
+        return dict(kind='para', id=nid(), n=n, lineH=line_h, st=pm.default_style(), kids=[], pos=pos, clear=False)
+
+    def spacer():
+        kids = []
+        if rng.random() < 0.2:
+            kids = [para(rng.choice([1, 2]), rng.choice(['abs', 'abs', 'float']))]
+            if kids[0]['pos'] == 'float':
+                kids[0]['st']['height'] = Fraction(0)
+        box = dict(kind='block', id=nid(), st=pm.default_style(), kids=kids, pos='static', clear=False)
+        box['st']['height'] = rng.choice([Fraction(0), Fraction(0), 'auto'])
+        box['st']['mt'] = Fraction(rng.choice([0, 4, 10, 20, 40]))
+        box['st']['mb'] = Fraction(rng.choice([0, 0, 10, 20]))
+        return box
+
+    kids = [para(rng.choice([page_lines - 1, page_lines, page_lines, 2 * page_lines - 1, 2 * page_lines]) or 1)]
+    if rng.random() < 0.3:
+        kids.append(para(rng.choice([1, 2]), rng.choice(['abs', 'float'])))
+    tail = [spacer() for _ in range(rng.choice([1, 1, 2, 3]))]
+    if rng.random() < 0.3:
+        tail = [dict(kind='block', id=nid(), st=pm.default_style(), kids=tail, pos='static', clear=False)]
+    kids += tail
+    body = dict(kind='block', id=nid(), st=pm.default_style(), kids=kids, pos='static', clear=False)
+    if rng.random() < 0.2:
+        body['st']['mb'] = Fraction(8)
+    root = dict(kind='block', id=nid(), st=pm.default_style(isRoot=True), kids=[body], pos='static', clear=False)
+    return dict(pageH=Fraction(page_h), ltr=True, root=root)
